@@ -322,6 +322,11 @@ def evaluate_payload_template(input, context, template):
                     "States.JsonToString failed with {}.".format(e)
                 )
 
+        def is_integer(value):
+            # A bool is an int as far as Python is concerned, but the JSON
+            # values true and false are not numbers.
+            return isinstance(value, int) and not isinstance(value, bool)
+
         def asl_intrinsic_Array(args):
             return args
 
@@ -338,7 +343,7 @@ def evaluate_payload_template(input, context, template):
                 )
 
             n = args[1]
-            if not isinstance(n, int) or n <= 0:
+            if not is_integer(n) or n <= 0:
                 raise IntrinsicFailure(
                     "States.ArrayPartition failed, arg[1] is not a non-zero, positive integer."
                 )
@@ -364,7 +369,12 @@ def evaluate_payload_template(input, context, template):
             if AWS supports JSON object/list, if so that's make this much
             more complex and computationally expensive
             """
-            return args[1] in input_array
+            # Don't use "in", which finds true among numbers (True == 1).
+            return any(
+                isinstance(item, bool) == isinstance(args[1], bool) and
+                item == args[1]
+                for item in input_array
+            )
 
         def asl_intrinsic_ArrayRange(args):
             if len(args) != 3:
@@ -374,9 +384,9 @@ def evaluate_payload_template(input, context, template):
             start     = args[0]
             end       = args[1]
             increment = args[2]
-            if not (isinstance(start, int) and
-                    isinstance(end, int) and
-                    isinstance(increment, int)):
+            if not (is_integer(start) and
+                    is_integer(end) and
+                    is_integer(increment)):
                 raise IntrinsicFailure(
                     "States.ArrayRange failed, all arguments must be integers."
                 )
@@ -408,7 +418,7 @@ def evaluate_payload_template(input, context, template):
                 )
 
             index = args[1]
-            if not isinstance(index, int) or index < 0:
+            if not is_integer(index) or index < 0:
                 raise IntrinsicFailure(
                     "States.ArrayGetItem failed, arg[1] is not a positive integer."
                 )
@@ -529,7 +539,7 @@ def evaluate_payload_template(input, context, template):
                 raise IntrinsicFailure(
                     "States.JsonMerge failed, requires three arguments"
                 )
-            if args[2] != False:
+            if args[2] is not False:
                 raise IntrinsicFailure(
                     "States.JsonMerge failed, args[2] must be false as Step " +
                     "Functions currently only supports the shallow merging mode."
@@ -548,7 +558,7 @@ def evaluate_payload_template(input, context, template):
                 raise IntrinsicFailure(
                     "States.MathRandom failed, requires two or three arguments"
                 )
-            if not isinstance(args[0], int) or not isinstance(args[1], int):
+            if not is_integer(args[0]) or not is_integer(args[1]):
                 raise IntrinsicFailure(
                     "States.MathRandom failed, args[0] and args[1] must be integers."
                 )
@@ -574,7 +584,7 @@ def evaluate_payload_template(input, context, template):
                 raise IntrinsicFailure(
                     "States.MathAdd failed, requires two arguments."
                 )
-            if not isinstance(args[0], int) or not isinstance(args[1], int):
+            if not is_integer(args[0]) or not is_integer(args[1]):
                 raise IntrinsicFailure(
                     "States.MathAdd failed, both arguments must be integers."
                 )
